@@ -12,6 +12,7 @@
 -/
 import Aqv.Gen.Rpc
 import Aqv.Lemmas.Rpc
+import Aqv.Lemmas.Translated.Rpc
 namespace Aqv.Props.C18
 open Aqv.Model.Rpc Aqv.Gen.Rpc Aqv.Lemmas.Rpc
 
@@ -141,5 +142,17 @@ theorem opt_in_enables :
 
 example : exposed params .pow Cfg.default ⟨false, true, false, false, false⟩ .ipc
     ⟨"personal", "sign", "Sign", "aquaapi.PrivateAccountAPI", false, false, false, false, true, true⟩ = true := by decide
+
+/-! ### tie by translation (T-gen `translated`, DESIGN 2.2 mini-translator): rpc.isProtectedMethodName -/
+
+/-- the go/ssa body of rpc.isProtectedMethodName, translated to Lean on every run (`Aqv.Gen.Translated`, regenerated from the
+    tree under test), IS the protected-name test `isProtected params` that every theorem above is stated on.  (The string
+    constants in `params` are extracted independently, from the syntax, by the rpcsign extractor: the two must agree.) -/
+theorem isProtectedMethodName_code_is_model :
+    Aqv.Gen.Translated.isProtectedMethodName = isProtected params :=
+  Aqv.Lemmas.Translated.isProtectedMethodName_translated_eq
+
+example : Aqv.Gen.Translated.isProtectedMethodName "Sign" = true ∧
+    Aqv.Gen.Translated.isProtectedMethodName "Accounts" = false := by decide
 
 end Aqv.Props.C18
